@@ -109,6 +109,16 @@ def run(ctx, rep):
     rep.floor('wrapper-impls', n_wrappers, 27)
     rep.floor('thin-wrapper-methods', n_thin_methods, 70)
     rep.floor('caching-wrapper-forwarded-queries', n_fwd, 10)
+    # State is a wrapper as well: when it stops asking the wrapped database is decided by the account
+    # status machine and the AccountInfo predicates it branches on (C15 R2, R2c, R4, R4b)
+    import engine
+    import c15
+    sub = engine.SubReport(rep, 'C15')
+    fxd = ctx.facts('default')
+    c15.check_status_machine(fxd, sub)
+    c15.check_info_predicates(fxd, sub)
+    c15.check_reads(fxd, sub)
+    c15.check_has_storage_answers(fxd, sub)
     rep.assume('leaf databases (EmptyDBTyped, BenchmarkDB, EthersDB, AlloyDB) may answer has_storage with the default')
 
 
